@@ -95,7 +95,7 @@ def histories_for(ctx) -> List[Dict[str, Any]]:
     # otherwise exactly those of the plain generator)
     for i, h in enumerate(gen.generate(ctx.seed, n_rand, p_race=gen.P_RACE)):
         hs.append({'name': f'random:{ctx.seed}:{i}', 'history': h})
-    n_mal = ctx.scale(10, 120)
+    n_mal = ctx.scale(24, 120)      # every malformed variant at least once (the histories are four ops long)
     for i, h in enumerate(gen.generate_malformed(ctx.seed + 1, n_mal)):
         hs.append({'name': f'malformed:{ctx.seed + 1}:{i}', 'history': h})
     if ctx.thorough:
